@@ -34,8 +34,44 @@ def mk_msg(kind, p):
 GETTERS = ["put_request", "put_response", "closure", "txmode", "origid", "listreq", "listresp", "listopts"]
 
 
-def read_params(r, kind):
-    """The parameters through the getter of `kind`, projected; None if the getter says 'not this kind'."""
+def _scramble(x):
+    """change every field of a returned parameter object in place (a later read must not be affected)"""
+    import dataclasses
+    from spacepackets.cfdp.lv import CfdpLv
+    from spacepackets.util import UnsignedByteField
+    objs = x if isinstance(x, tuple) else (x,)
+    for o in objs:
+        if dataclasses.is_dataclass(o) and not isinstance(o, type):
+            for f in dataclasses.fields(o):
+                v = getattr(o, f.name)
+                try:
+                    if isinstance(v, CfdpLv):
+                        setattr(o, f.name, CfdpLv(b"zz" + bytes(v.value)[:3]))
+                    elif isinstance(v, UnsignedByteField):
+                        setattr(o, f.name, UnsignedByteField(0xEE, 1 if v.byte_len != 1 else 2))
+                    elif isinstance(v, bool):
+                        setattr(o, f.name, not v)
+                except Exception:  # noqa
+                    pass
+        elif hasattr(o, "source_id") and hasattr(o, "seq_num"):          # TransactionId
+            try:
+                o.source_id = UnsignedByteField(0xEE, 1)
+                o.seq_num = UnsignedByteField(0xEE, 1)
+            except Exception:  # noqa
+                pass
+
+
+def read_params(r, kind, reread=True):
+    """The parameters through the getter of `kind`, projected; None if the getter says 'not this kind'. With reread the
+    getter is called once before, its result is changed in place, and the projection comes from a second call."""
+    if reread:
+        g = {"put_request": r.get_proxy_put_request_params, "put_response": r.get_proxy_put_response_params,
+             "closure": r.get_proxy_closure_requested, "txmode": r.get_proxy_transmission_mode,
+             "origid": r.get_originating_transaction_id, "listreq": r.get_dir_listing_request_params,
+             "listresp": r.get_dir_listing_response_params, "listopts": r.get_dir_listing_options}[kind]
+        first = g()
+        if first is not None:
+            _scramble(first)
     if kind == "put_request":
         x = r.get_proxy_put_request_params()
         return None if x is None else {"dest": octs(x.dest_entity_id.as_bytes), "src": octs(x.source_file_name.value),
